@@ -586,6 +586,8 @@ def is_valid_MatchValue_value(ast: AST, consts: tuple[type[constant]] = (str, by
 
         ast = ast.operand
 
+        return ast.__class__ is Constant and ast.value.__class__ in (int, float, complex)  # only a number can be negative, not whatever else is in `consts`, `__class__` because bool is int
+
     if ast.__class__ is Constant:
         return ast.value.__class__ in consts  # because bool is int
 
@@ -599,7 +601,7 @@ def is_valid_MatchValue_value(ast: AST, consts: tuple[type[constant]] = (str, by
 
                 l = l.operand
 
-            if l.__class__ is Constant and isinstance(l.value, (int, float)):
+            if l.__class__ is Constant and l.value.__class__ in (int, float):  # because bool is int
                 return True
 
     return False
